@@ -242,7 +242,13 @@ func planC14(prop string, seed uint64, tier string, idx int) *Plan {
 	extra := g.newBlob(g.r.between(1, 300))
 	_ = img2
 	_ = index
-	_ = art2
+	if g.p.Profile == "switch matrix" && k.Store == "mem" {
+		// the referrers switch (a store without pre-existing layouts: a converted layout cannot be opened with the API off)
+		k.Referrer = g.r.pick(-1, 0, 0, 1)
+		if g.r.chance(60) {
+			art2 = g.newIndex(nil, subj) // an artifact may be an index as well as an image
+		}
+	}
 	if g.p.Profile != "switch matrix" || k.Store == "dir" {
 		k.Preseed = "layouts"
 		cfg := map[string]any{"converted": true}
